@@ -31,6 +31,14 @@ mod async_util;
 #[cfg(all(test, loom))]
 mod loom_tests;
 
+/// Verification control surface (scheduler, virtual clock); only under
+/// `--cfg excsn_fibre_verif`.
+#[cfg(all(excsn_fibre_verif, not(loom)))]
+pub mod __verif {
+  pub use crate::internal::sync::verif::sched::*;
+  pub use crate::internal::sync::verif::Instant;
+}
+
 pub use error::{
   BatchSendErrorReason, CloseError, RecvError, RecvErrorTimeout, SendBatchError, SendError,
   TryRecvError, TrySendBatchError, TrySendError,
